@@ -160,6 +160,7 @@ def run(ctx: Ctx, repo: Repo, tier: str) -> None:
     TIER = tier
     ctx.trust(*TRUSTED)
     ctx.trust("random.randrange(n) is uniform over range(n)")
-    rule_gate(ctx, repo)
-    rule_return_ignores_untracked(ctx, repo)
-    rule_forwarding(ctx, repo)
+    ctx.attempt(rule_gate, ctx, repo)
+    ctx.attempt(rule_return_ignores_untracked, ctx, repo)
+    ctx.attempt(rule_forwarding, ctx, repo)
+    ctx.settle()
